@@ -128,4 +128,25 @@ def n13(pid, tier, replay):
     return simple.run_simple(pid, tier, plan, replay)
 
 
-CHECKS = {"C13": n13, "C14": n13, "C08": g08, "C09": g09, "C10": g09, "C11": g11, "C12": g12, "C15": g15, "C16": g16}
+def c18(pid, tier, replay):
+    n = 60 if tier == Q else 600
+    plan = {
+        "module": "TraceConfig", "cfg": "TraceConfig.cfg", "own": r"^config\..*$",
+        "design": [("Config", "Config_isolated.cfg", 900)],
+        "jobs": [{"cmd": ["config-run", "--n", str(n), "--len", "8" if i % 2 == 0 else "14", "--seed", str(seed() * 100 + i)],
+                  "label": "shard%d" % i} for i in range(8)],
+        "replay_cmd": lambda path: ["config-run", "--replay", path],
+        "result_keys": ("insts", "rinsts", "fresh", "rfresh", "used", "usedindent", "first", "second"),
+        "nontrivial": lambda e: e.get("op") != "Reset",
+        "rule": "seeded random histories of NewWriter / NewReader calls with every subset of the available options in "
+                "random order, interleaved with WriteStream (instance options), WriteStreamWithOptions (per-call format) "
+                "and Store twice (no-clobber); after EVERY call the option values of every live instance and of a fresh "
+                "option-less instance are logged; distinct by (call, options, position)",
+        "assumptions": ["UnserializeOptions / SerializeOptions are empty structs and cannot be observed",
+                        "the format actually used is read from the output with encoding/json only"],
+        "replay_whole_script": True,
+    }
+    return simple.run_simple(pid, tier, plan, replay)
+
+
+CHECKS = {"C18": c18, "C13": n13, "C14": n13, "C08": g08, "C09": g09, "C10": g09, "C11": g11, "C12": g12, "C15": g15, "C16": g16}
